@@ -1,14 +1,42 @@
 import Qentem.Driver.Proto
 import Qentem.Driver.Escape
+import Qentem.Driver.Order
+import Qentem.Driver.Unicode
+import Qentem.Driver.BigInt
+import Qentem.Driver.Seq
+import Qentem.Driver.HashTable
+import Qentem.Driver.Value
+import Qentem.Driver.Json
+import Qentem.Driver.StrToNum
+import Qentem.Driver.NumToStr
+import Qentem.Driver.Expr
+import Qentem.Driver.Tmpl
+import Qentem.Driver.Ledger
 
+/-!
+Model driver: one operation per input line, one canonical line out.  The first token's prefix
+selects the area.  Only `Qentem.Model.*` / `Qentem.Driver.*` (no Mathlib) may be imported here.
+-/
 open Qentem.Driver
 
 def dispatch (line : String) : String :=
   match line.trimAscii.toString.splitOn " " with
   | op :: rest =>
     if op.startsWith "esc" then Escape.handle op rest
+    else if op.startsWith "ord" then Order.handle op rest
+    else if op.startsWith "uni" then Unicode.handle op rest
+    else if op.startsWith "big" then BigInt.handle op rest
+    else if op.startsWith "seq" then Seq.handle op rest
+    else if op.startsWith "ht" then HashTable.handle op rest
+    else if op.startsWith "val" then Value.handle op rest
+    else if op.startsWith "js" then Json.handle op rest
+    else if op.startsWith "s2n" then StrToNum.handle op rest
+    else if op.startsWith "n2s" then NumToStr.handle op rest
+    else if op.startsWith "exp" then Expr.handle op rest
+    else if op.startsWith "tpl" then Tmpl.handle op rest
+    else if op.startsWith "led" then Ledger.handle op rest
     else "bad-op"
-  | _ => "bad-op"
+  | [] => "bad-op"
 
 partial def loop (hin : IO.FS.Stream) (hout : IO.FS.Stream) : IO Unit := do
   let line ← hin.getLine
